@@ -36,7 +36,19 @@ def single(cfg, crate, rep):
     ctor = ("yasna::models::UTCTime::from_datetime", "yasna::models::GeneralizedTime::from_datetime", "yasna::models::UTCTime::from_datetime_opt", "yasna::models::GeneralizedTime::from_datetime_opt",
             "yasna::models::GeneralizedTime::from_datetime_and_sub_nano", "yasna::models::GeneralizedTime::from_datetime_and_sub_nano_opt", "yasna::models::UTCTime::parse", "yasna::models::GeneralizedTime::parse")
     writers = ("yasna::DERWriter::write_utctime", "yasna::DERWriter::write_generalized_time")
-    allowed_ctor = {HELPER, "dt_to_generalized"}
+    # helpers of the shared time writer: everything the writer (transitively) calls inside the crate
+    reach = {HELPER, "dt_to_generalized"}
+    stack = [HELPER, "dt_to_generalized"]
+    while stack:
+        f_ = stack.pop()
+        b_ = crate.bodies.get(f_)
+        if not b_ or "hir" not in b_:
+            continue
+        for callee, node, ps in common.calls_in(b_):
+            if callee in crate.bodies and callee not in reach:
+                reach.add(callee)
+                stack.append(callee)
+    allowed_ctor = reach
     allowed_writer = {HELPER, "crl::RevokedCertParams::write_der"}
     n = 0
     for name, b in common.all_bodies(crate):
